@@ -1,6 +1,178 @@
-/-! line-protocol handlers (stub: filled in when the suite is built) -/
-namespace Apko.Driver.IndexSig
+import Apko.Model.IndexSig
+/-!
+line-protocol handlers for corr:indexsig (C04).
 
-def handle (_args : List String) : Option String := none
+The harness runs the real gzip / archive/tar / crypto/rsa code on each archive and sends the *abstract
+description* the model is parametric in: the entries of the first gzip member and how the loop over
+them ended, which (key, algorithm, body) triples verify over the unread remainder, and what the
+remainder / the whole buffer parse to.  The driver instantiates `Crypto` / `Codec` with exactly that
+description (the archive is the token `A`, the remainder the token `R`) and runs `parseIndex` (Impl)
+and `Spec.acceptableB` (the oracle, on Go's answer).
+
+  is.check  ign nosig url arch                                        → checkOn | ¬exempt | class
+  is.parse  ign nosig url arch keys first verif pRest pWhole gokind goout → impl | pass/fail | class
+  is.multi  mode ign nosig arch keys goout (url first verif pRest pWhole)* → impl | pass/fail | class
+
+Encodings: `nosig`/`keys`/entries are comma lists; names are `x<hex>`; key material, entry bodies and
+package records are opaque tokens; `first` = `none` or `<ending>|<entries>` with ending `eof`, `errnext`,
+`errbody:x<hex>`; `verif` = `<pem>:<1|256>:<body>` triples; parse results `err` or `p<rec,rec…>;d<hex>;s<body>`.
+-/
+namespace Apko.Driver.IndexSig
+open Apko Apko.IndexSig
+
+def splitList (s : String) : List String := if s.isEmpty then [] else s.splitOn ","
+
+/-- `x<hex>` → bytes -/
+def unx (s : String) : Text := unhex (s.toList.drop 1)
+
+def parseOpts (ign nosig : String) : Opts := ⟨ign == "1", (splitList nosig).map unx⟩
+
+def parseKeys (s : String) : Keys :=
+  (splitList s).filterMap fun kv =>
+    match kv.splitOn ":" with
+    | [n, pem] => some (unx n, pem.toList)
+    | _ => none
+
+def parseEnding (s : String) : Ending :=
+  match s.splitOn ":" with
+  | ["eof"] => .eof
+  | ["errbody", n] => .errBody (unx n)
+  | _ => .errNext
+
+def parseFirst (s : String) (rest : Bytes) : Option First :=
+  if s == "none" then none else
+  match s.splitOn "|" with
+  | [e, ents] =>
+    some ⟨(splitList ents).filterMap (fun x => match x.splitOn ":" with
+        | [n, b] => some ⟨unx n, b.toList⟩
+        | _ => none), parseEnding e, rest⟩
+  | _ => none
+
+def parseAlg (s : String) : Alg := if s == "1" then .sha1 else .sha256
+
+def parseVerif (s : String) : List (Bytes × Alg × Bytes) :=
+  (splitList s).filterMap fun x =>
+    match x.splitOn ":" with
+    | [pem, a, b] => some (pem.toList, parseAlg a, b.toList)
+    | _ => none
+
+def parseIdx (s : String) : Option Index :=
+  match s.splitOn ";" with
+  | [p, d, g] =>
+    some ⟨(splitList (String.ofList (p.toList.drop 1))).map String.toList, d.toList.drop 1, g.toList.drop 1⟩
+  | _ => none
+
+def showIdx (i : Index) : String :=
+  "p" ++ ",".intercalate (i.packages.map String.ofList) ++ ";d" ++ String.ofList i.description ++ ";s" ++ String.ofList i.signature
+
+def tokA : Bytes := ['A']
+def tokR : Bytes := ['R']
+
+/-- the interpretation of the parameters that the harness measured on this archive -/
+def mkCrypto (table : List (Bytes × Alg × Bytes)) : Crypto where
+  sha1 := fun x => '1' :: ':' :: x
+  sha256 := fun x => '2' :: '5' :: '6' :: ':' :: x
+  rsaVerify := fun pem a d s =>
+    (d == match a with | .sha1 => '1' :: ':' :: tokR | .sha256 => '2' :: '5' :: '6' :: ':' :: tokR) &&
+    table.contains (pem, a, s)
+
+def mkCodec (first : Option First) (pRest pWhole : Option Index) : Codec where
+  readFirst := fun a => if a == tokA then first else none
+  indexFromArchive := fun a => if a == tokR then pRest else if a == tokA then pWhole else none
+
+def showRej : Rej → String
+  | .noKeys => "nokeys" | .keyName => "keyname" | .gzip => "gzip" | .tar => "tar"
+  | .entryName => "name" | .sigFormat => "format" | .readSig => "readsig" | .noSig => "nosig"
+  | .verify => "verify" | .parse => "parse"
+
+/-- Go's answer as a `Res` (the rejection reason is irrelevant to the oracle) -/
+def parseGo (s : String) : Option Res :=
+  if s.startsWith "err" then some (.rej .parse)
+  else if s.startsWith "ok " then (parseIdx (s.drop 3).toString).map .ok
+  else none
+
+structure One where
+  url : Text
+  first : Option First
+  crypto : Crypto
+  codec : Codec
+
+def mkOne (url first verif pRest pWhole : String) : One :=
+  let f := parseFirst first tokR
+  ⟨unx url, f, mkCrypto (parseVerif verif), mkCodec f (parseIdx pRest) (parseIdx pWhole)⟩
+
+def runOne (keys : Keys) (o : Opts) (arch : Text) (x : One) : Res :=
+  parseIndex x.crypto x.codec keys o x.url arch tokA
+
+def verdictOne (keys : Keys) (o : Opts) (arch : Text) (x : One) (go : Res) : Bool :=
+  Spec.acceptableB x.crypto x.codec keys o x.url arch tokA go
+
+/-- the readings of this repository's archive (as verified bytes / as a whole) that the Spec allows to be used -/
+def acceptableCands (keys : Keys) (o : Opts) (arch : Text) (x : One) : List Index :=
+  ([x.codec.indexFromArchive tokR, x.codec.indexFromArchive tokA].filterMap id).filter
+    (fun i => verdictOne keys o arch x (.ok i))
+
+def showPkgs (i : Index) : String := "p" ++ ",".intercalate (i.packages.map String.ofList)
+
+def parsePkgs (s : String) : List Text := (splitList (String.ofList (s.toList.drop 1))).map String.toList
+
+def groups : List String → List One
+  | u :: f :: v :: pr :: pw :: rest => mkOne u f v pr pw :: groups rest
+  | _ => []
+
+def handle (args : List String) : Option String :=
+  match args with
+  | ["is.check", ign, nosig, url, arch] =>
+    let o := parseOpts ign nosig
+    let impl := toString (checkOn o (unx url) (unx arch))
+    let spec := toString (!Spec.exemptB o (unx url) (unx arch))
+    some (impl ++ "\t" ++ spec ++ "\t" ++ (if impl == spec then "-" else "unlisted"))
+  | ["is.parse", ign, nosig, url, arch, keys, first, verif, pRest, pWhole, goKind, goOut] =>
+    let o := parseOpts ign nosig
+    let ks := parseKeys keys
+    let x := mkOne url first verif pRest pWhole
+    let impl := match runOne ks o (unx arch) x with
+      | .ok i => "ok " ++ showIdx i
+      | .rej r => "err:" ++ (if goKind == "other" then "other" else showRej r)
+    let verdict := match parseGo goOut with
+      | none => "fail:unreadable-go-output"
+      | some g => if verdictOne ks o (unx arch) x g then "pass" else
+          (if Spec.exemptB o x.url (unx arch) then "fail:exempt-but-not-parsed-as-is"
+           else "fail:accepted-without-valid-signature-over-parsed-bytes")
+    some (impl ++ "\t" ++ verdict ++ "\t" ++ (if verdict == "pass" then "-" else "unlisted"))
+  | "is.multi" :: mode :: ign :: nosig :: arch :: keys :: goOut :: rest =>
+    -- GetRepositoryIndexes over several repositories; only the package lists are observable
+    let o := parseOpts ign nosig
+    let ks := parseKeys keys
+    let xs := groups rest
+    let rs := xs.map (runOne ks o (unx arch))
+    let oks := rs.filterMap (fun r => match r with | .ok i => some i | .rej _ => none)
+    let impl :=
+      if oks.length != rs.length then "err"
+      else if mode == "okerr" then "ok"
+      else "ok " ++ "|".intercalate (oks.map showPkgs)
+    let verdict :=
+      if goOut.startsWith "err" then "pass"
+      else if mode == "okerr" then
+        (if xs.all (fun x => !(acceptableCands ks o (unx arch) x).isEmpty) then "pass"
+         else "fail:accepted-an-index-that-has-no-acceptable-reading")
+      else
+        let gs := ((goOut.drop 3).toString.splitOn "|").map parsePkgs
+        if gs.length != xs.length then "fail:number-of-indexes"
+        else if (xs.zip gs).all (fun (x, g) => (acceptableCands ks o (unx arch) x).any (fun i => i.packages == g)) then "pass"
+        else "fail:accepted-without-valid-signature-over-parsed-bytes"
+    some (impl ++ "\t" ++ verdict ++ "\t" ++ (if verdict == "pass" then "-" else "unlisted"))
+  | "is.world" :: ign :: nosig :: arch :: keys :: goOut :: rest =>
+    -- ResolveWorld: every resolved package must come from an index that may be used
+    let o := parseOpts ign nosig
+    let ks := parseKeys keys
+    let xs := groups rest
+    let allowed := xs.flatMap (fun x => (acceptableCands ks o (unx arch) x).flatMap (·.packages))
+    let verdict :=
+      if goOut.startsWith "err" then "pass"
+      else if (parsePkgs ((goOut.drop 3).toString)).all (fun r => allowed.contains r) then "pass"
+      else "fail:resolved-package-from-an-index-that-must-not-be-used"
+    some ("-\t" ++ verdict ++ "\t" ++ (if verdict == "pass" then "-" else "unlisted"))
+  | _ => none
 
 end Apko.Driver.IndexSig
